@@ -351,6 +351,13 @@ MUTATIONS += [
     dict(id="C12-rewrite-memo-recorded-without-path", prop="C12", file=RWTF, old="            _ = self.unchanged.insert((path, id));", new="            _ = self.unchanged.insert((PathBuf::new(), id));"),
 ]
 
+MUTATIONS += [
+    dict(id="C12-modify-unchanged-dir-dropped", prop="C12", file=MODF, old="                        ModifierChange::Unchanged => {\n                            new_tree.add(node);\n                        }", new="                        ModifierChange::Unchanged => {}"),
+    dict(id="C12-modify-subtree-id-not-updated", prop="C12", file=MODF, old="                        ModifierChange::Changed(tree_id) => {\n                            node.subtree = Some(tree_id);\n                            new_tree.add(node);", new="                        ModifierChange::Changed(_tree_id) => {\n                            new_tree.add(node);"),
+    dict(id="C12-modify-removed-subtree-kept", prop="C12", file=MODF, old="                        ModifierChange::Removed => {\n                            changed = true;\n                        }", new="                        ModifierChange::Removed => {\n                            changed = true;\n                            new_tree.add(node);\n                        }"),
+    dict(id="C12-modify-unchanged-nodes-dropped-on-rewrite", prop="C12", file=MODF, old="                NodeAction::Node(node, node_changed) => {\n                    changed |= node_changed;\n                    new_tree.add(node);", new="                NodeAction::Node(node, node_changed) => {\n                    changed |= node_changed;\n                    if node_changed || !changed {\n                        new_tree.add(node);\n                    }"),
+]
+
 HARMLESS = [
     dict(id="H-C05-trees-symlink-continue", prop="C05", file=CK, old="        for node in tree.nodes {\n            match node.node_type {", new="        for node in tree.nodes {\n            if node.node_type == NodeType::Symlink {\n                continue;\n            }\n            match node.node_type {"),
     # independent statements reordered
